@@ -156,7 +156,12 @@ struct Owners { Block b; Source so; Section xo; bool use = false; };
 static Owners owners_before(File &f, const Victim &v, const std::string &id) {
     Owners o; o.use = true;
     vf::guarded([&] {
-        if (f.hasBlock("b1")) { o.b = B(f); o.b.hasDataArray(id); o.b.hasDataFrame(id); o.b.hasTag(id); o.b.hasMultiTag(id); o.b.hasGroup(id); o.b.hasSource(id); }
+        if (f.hasBlock("b1")) {   // asked about the id in the container of the victim's kind only (what a program holding the id does)
+            o.b = B(f);
+            if (v.kind == "DataArray") { o.b.hasDataArray(id); o.b.getDataArray(id); } else if (v.kind == "DataFrame") { o.b.hasDataFrame(id); o.b.getDataFrame(id); }
+            else if (v.kind == "Tag") { o.b.hasTag(id); o.b.getTag(id); } else if (v.kind == "MultiTag") { o.b.hasMultiTag(id); o.b.getMultiTag(id); }
+            else if (v.kind == "Group") { o.b.hasGroup(id); o.b.getGroup(id); } else if (v.kind == "Source" && v.owner == "b1") { o.b.hasSource(id); o.b.getSource(id); }
+        }
         if (v.kind == "Source" && v.owner != "b1") { o.so = S(f, v.owner); o.so.hasSource(id); o.so.getSource(id); }
         if ((v.kind == "Section" || v.kind == "Property") && !v.owner.empty()) { o.xo = X(f, v.owner); o.xo.hasSection(id); o.xo.hasProperty(id); }
         f.hasBlock(id); f.hasSection(id);
@@ -351,6 +356,7 @@ int main(int argc, char **argv) {
                 std::string sigbase = "C04|delete " + v.kind + " " + MODES[mode];
                 bool ret = false; std::string what;
                 Owners own = owners_before(f, v, vid);
+                Owners own_quiet = owners_before(f, v, vid);   // a second set that is NOT asked between the deletion and the re-creation
                 vf::set_clock(1500000300);
                 std::string exc = vf::guarded([&] { ret = do_delete(f, v, mode, vid); }, &what);
                 vf::count("deletions");
@@ -399,16 +405,17 @@ int main(int argc, char **argv) {
                     if (!e2.empty()) vf::violation(sigbase + "|re-creating an entity under the name of the deleted one|throws " + e2, ctx + " " + w2);
                     else {
                         if (nid == vid) vf::violation(sigbase + "|entity re-created under the victim's name|carries the id of the deleted entity", ctx);
-                        std::string f1 = lookups_after(f, v, vid, nullptr, false), f2 = lookups_after(f, v, vid, &own, false);
-                        if (!f1.empty() || !f2.empty())
-                            vf::violation(sigbase + "|after re-creating an entity under the victim's name the OLD id resolves again|" + (f1.empty() ? "" : "fresh owner handle: " + f1) + (f2.empty() ? "" : "owner handle kept since before the deletion: " + f2), ctx);
+                        std::string f1 = lookups_after(f, v, vid, nullptr, false), f2 = lookups_after(f, v, vid, &own, false), f3 = lookups_after(f, v, vid, &own_quiet, false);
+                        if (!f1.empty() || !f2.empty() || !f3.empty())
+                            vf::violation(sigbase + "|after re-creating an entity under the victim's name the OLD id resolves again|" + (f1.empty() ? "" : "fresh owner handle: " + f1) + (f2.empty() ? "" : "owner handle kept since before the deletion: " + f2) +
+                                          (f3.empty() ? "" : "owner handle kept since before the deletion and not used in between: " + f3), ctx);
                         std::string valid2;
                         still_valid(pool.blocks, self, "Block", valid2); still_valid(pool.arrays, self, "DataArray", valid2); still_valid(pool.frames, self, "DataFrame", valid2);
                         still_valid(pool.tags, self, "Tag", valid2); still_valid(pool.mtags, self, "MultiTag", valid2); still_valid(pool.groups, self, "Group", valid2);
                         still_valid(pool.properties, self, "Property", valid2); still_valid(pool.sources, self, "Source", valid2); still_valid(pool.sections, self, "Section", valid2);
                         if (!valid2.empty()) vf::violation(sigbase + "|after re-creating an entity under the victim's name a handle of the deleted entity reports valid|" + valid2, ctx);
                         bool r2 = false;
-                        vf::guarded([&] { r2 = delete_by_id_kept(f, v, vid, own); });
+                        vf::guarded([&] { r2 = delete_by_id_kept(f, v, vid, own_quiet); });
                         std::string now = id_by_name(f, v);
                         if (r2 || now != nid)
                             vf::violation(sigbase + "|deletion by the OLD id after re-creating an entity under the victim's name|" + (now != nid ? "the new entity is gone" : "answers true"), ctx);
